@@ -10,7 +10,7 @@ LEVEL = "exploration"
 FLAVORS = ["asan"]
 RULE = ("random trees (depth<=3) with prefer/avoid/both xattrs (trusted.* and user.*), memory.oom.group, populated flags, well separated "
         "and tie-heavy metric values, all five kill plugins, recursive on/off, scripted per-cgroup outcomes (success / every pid ESRCH), "
-        "2-3 ticks; plus an exhaustive sweep of every (preference x oom.group x populated x outcome) assignment on all tree shapes with "
+        "2-3 ticks; plus an exhaustive sweep of every (preference incl. both marks x oom.group x populated x outcome) assignment on all tree shapes with "
         "<=3 cgroups below the target. The observed sequence of attempted victims (uuid xattr markers at setxattr(2)) must be one of the "
         "sequences the documented walk allows (ties in (preference, metric) admit any order). "
         "non-trivial = >=2 attempts in one invocation (fallback) or a descent below the first level; distinct by scenario hash")
@@ -44,6 +44,8 @@ def mk_case(rng, cid, plugin, tie=False, depth=None, fan=None):
                 ops.append({"op": "write", "cg": r, "file": "memory.current", "text": "%d\n" % rng.randint(0, 1 << 34)})
         ticks.append({"step_ns": 10**9, "ops": ops})
     scn = KG.base_scn(cid, cgs, KG.kill_config(plugin, args), ticks=ticks, kill=kill)
+    if rng.random() < 0.15:
+        scn["dtype_unknown"] = True
     return core.Case(cid, [scn], {"plugin": plugin, "patterns": pats, "args": args})
 
 
@@ -52,7 +54,7 @@ def exhaustive_cases(seed, limit=None):
     shapes = [
         ["a"], ["a", "b"], ["a", "a/x"], ["a", "b", "c"], ["a", "b", "a/x"], ["a", "a/x", "a/y"], ["a", "a/x", "a/x/z"],
     ]
-    prefs = [None, "prefer", "avoid"]
+    prefs = [None, "prefer", "avoid", "both"]
     out = []
     n = 0
     for shape in shapes:
@@ -69,7 +71,8 @@ def exhaustive_cases(seed, limit=None):
         pid = 100
         for j, (rel, (pref, og, pop, ok)) in enumerate(zip(shape, assign)):
             pr = (10.0 + 7 * j, 5.0 + 3 * j, 1.0, 10)
-            xa = {"trusted.oomd_prefer": "1"} if pref == "prefer" else {"user.oomd_avoid": "1"} if pref == "avoid" else None
+            xa = ({"trusted.oomd_prefer": "1"} if pref == "prefer" else {"user.oomd_avoid": "1"} if pref == "avoid" else
+                  {"trusted.oomd_avoid": "1", "user.oomd_prefer": "1"} if pref == "both" else None)
             cgs["wl/" + rel] = W.cgroup(current=(1 + j) << 20, pids=[pid], populated=pop, mem_pressure=W.psi(full=pr), oom_group=og, xattrs=xa)
             if not ok:
                 kill["pids"][str(pid)] = "ESRCH"
@@ -172,7 +175,7 @@ def judge(case, results):
 def coverage_extra(cases_, verdicts, tier):
     ex = sum(1 for c in cases_ if c.meta.get("exhaustive"))
     return {"exhaustive_small_tree_cases": ex, "exhaustive": False,
-            "exhaustive_note": "small-tree sweep is complete (all 7 shapes x 24^k assignments) in the thorough tier, sampled (1500) in quick"}
+            "exhaustive_note": "small-tree sweep is complete (all 7 shapes x 32^k assignments) in the thorough tier, sampled (1500) in quick"}
 
 
 def sample(case, v):
